@@ -1,11 +1,74 @@
-(* C08 (PARTIAL): the numeric parts of the first line: reply status = the three digits;
-   method number = exact-case table look-up.  The splitting clauses are checked by the
-   correspondence run and the 'legal reading' oracle only. *)
-From Sipsp Require Import Harness Classify IP4 Numbers.
-Theorem C08_status_is_the_three_digits_partial : forall a b c,
+(* C08: the first line is decomposed exactly.
+   PROVED for the model (completeness direction): every text of the form
+       method SP uri SP version EOL          (tokens without white space, not starting like a reply)
+       "SIP/2.0" (any letter case) SP 3DIGIT SP reason EOL   (reason without CR / LF, possibly empty)
+   wherever it starts in a buffer and whatever precedes or follows it, with any of the three line
+   terminators (CRLF, CR + non-LF, LF + any byte), is accepted at the end of the line and reported
+   with exactly the extents of its components, the method number being the exact-case table look-up
+   of the method text and the status the value of the three digits.  Near misses (TAB / CR / LF
+   instead of the single SP, two SPs, a code that is not three digits followed by SP) are rejected
+   with "bad character" at the offending position.
+   Not proved: the converse (every accepted first line has one of the two shapes) - carried by the
+   'legal reading' oracle and the correspondence run. *)
+From Sipsp Require Import Harness Classify IP4 Numbers FLineSpec.
+From Sipsp Require Import Tables.
+
+Theorem C08_request_line : forall p m u v c y crl, is_crlf c = true -> skipCRLF (c :: y) = COk crl ->
+  tok m -> m <> [] -> tok u -> u <> [] -> tok v -> v <> [] ->
+  let line := m ++ SP :: u ++ SP :: v ++ c :: y in
+  (14 <= length line)%nat -> prefix_nocase go_sipVerSP line = false ->
+  let i := nnat (length p) in
+  parse_fline (p ++ line) i fline0
+  = Done (i + nnat (length m) + 1 + nnat (length u) + 1 + nnat (length v) + nnat crl) EOk
+      (mkfline 0 (get_method_no m) (mkpf i (nnat (length m))) (mkpf (i + nnat (length m) + 1) (nnat (length u)))
+               (mkpf (i + nnat (length m) + 1 + nnat (length u) + 1) (nnat (length v))) pf0 pf0 FlFIN).
+Proof. exact request_line_spec. Qed.
+
+Theorem C08_status_line : forall p ver a b c reason t y crl, is_crlf t = true -> skipCRLF (t :: y) = COk crl ->
+  length ver = 8%nat -> eqb_nocase ver go_sipVerSP = true ->
+  is_digit a = true -> is_digit b = true -> is_digit c = true -> nocrlf reason ->
+  let line := ver ++ a :: b :: c :: SP :: reason ++ t :: y in
+  let i := nnat (length p) in
+  parse_fline (p ++ line) i fline0
+  = Done (i + 12 + nnat (length reason) + nnat crl) EOk
+      (mkfline ((digit_val a * 100 + digit_val b * 10 + digit_val c) mod 65536) 0 pf0 pf0
+               (mkpf i 7) (mkpf (i + 8) 3) (mkpf (i + 12) (nnat (length reason))) FlFIN).
+Proof. exact status_line_spec. Qed.
+
+Theorem C08_the_three_line_terminators :
+  (forall x, is_crlf CR = true /\ skipCRLF (CR :: LF :: x) = COk 2) /\
+  (forall d x, is_lf d = false -> is_crlf CR = true /\ skipCRLF (CR :: d :: x) = COk 1) /\
+  (forall d x, is_crlf LF = true /\ skipCRLF (LF :: d :: x) = COk 1).
+Proof. exact (conj eol_crlf (conj eol_cr eol_lf)). Qed.
+
+Theorem C08_request_bad_separator_rejected : forall p m c r, tok m -> m <> [] -> is_ws c = true -> c <> SP ->
+  let line := m ++ c :: r in (14 <= length line)%nat -> prefix_nocase go_sipVerSP line = false ->
+  exists s, parse_fline (p ++ line) (nnat (length p)) fline0 = Done (nnat (length p) + nnat (length m)) EBadChar s.
+Proof. exact request_bad_separator. Qed.
+Theorem C08_request_double_space_rejected : forall p m r, tok m -> m <> [] ->
+  let line := m ++ SP :: SP :: r in (14 <= length line)%nat -> prefix_nocase go_sipVerSP line = false ->
+  exists s, parse_fline (p ++ line) (nnat (length p)) fline0 = Done (nnat (length p) + nnat (length m) + 1) EBadChar s.
+Proof. exact request_double_space. Qed.
+Theorem C08_status_bad_code_rejected : forall p ver a b c d r, length ver = 8%nat -> eqb_nocase ver go_sipVerSP = true ->
+  (d =? SP) && (is_digit a && is_digit b && is_digit c) = false ->
+  let line := ver ++ a :: b :: c :: d :: r in (14 <= length line)%nat ->
+  exists s, parse_fline (p ++ line) (nnat (length p)) fline0 = Done (nnat (length p) + 8) EBadChar s.
+Proof. exact status_bad_code. Qed.
+
+Theorem C08_status_is_the_three_digits : forall a b c,
   is_digit a = true -> is_digit b = true -> is_digit c = true ->
   (digit_val a * 100 + digit_val b * 10 + digit_val c) mod 65536 = dec [a; b; c].
 Proof. exact status_exact. Qed.
 Theorem C08_method_number_is_exact_case_table_lookup : forall name t, name <> [] ->
   (get_method_no name = t /\ t <> MOther) <-> In (name, t) spec_methods.
 Proof. exact method_no_spec. Qed.
+
+(* the hypotheses are satisfiable: "INVITE sip:a@b SIP/2.0" CRLF and "SIP/2.0 200 OK" CRLF *)
+Example C08_request_example :
+  parse_fline ([73;78;86;73;84;69;32;115;105;112;58;97;64;98;32;83;73;80;47;50;46;48;13;10]) 0 fline0
+  = Done 24 EOk (mkfline 0 (get_method_no [73;78;86;73;84;69]) (mkpf 0 6) (mkpf 7 7) (mkpf 15 7) pf0 pf0 FlFIN).
+Proof. vm_compute. reflexivity. Qed.
+Example C08_status_example :
+  parse_fline ([83;73;80;47;50;46;48;32;50;48;48;32;79;75;13;10]) 0 fline0
+  = Done 16 EOk (mkfline 200 0 pf0 pf0 (mkpf 0 7) (mkpf 8 3) (mkpf 12 2) FlFIN).
+Proof. vm_compute. reflexivity. Qed.
